@@ -9,6 +9,7 @@
 
 static hx_args A;
 static char **corpus; static size_t ncorpus;
+static bool no_encode;
 
 static uint64_t simple_visits(void)
 {
@@ -35,7 +36,11 @@ static void pick_input(vrng *r, gstream *g, size_t max_plain, unsigned mutate_pc
 {
 	mdesc[0] = 0;
 	unsigned k = vrng_below(r, 100);
-	if (k < 35 && ncorpus) {
+	if (no_encode) {
+		// (MSan builds: the encoders read uninitialised match-finder memory by
+		// design, so inputs come only from files written by another build.)
+		if (!gen_corpus(r, g, corpus, ncorpus)) { memset(g, 0, sizeof(*g)); g->kind = SK_GARBAGE; vbuf_reserve(&g->data, 64); vrng_fill(r, g->data.p, 64); g->data.n = 64; snprintf(g->desc, sizeof(g->desc), "garbage[64B]"); }
+	} else if (k < 35 && ncorpus) {
 		if (!gen_corpus(r, g, corpus, ncorpus)) gen_stream(r, g, -1, max_plain);
 	} else gen_stream(r, g, -1, max_plain);
 	if (vrng_below(r, 100) < mutate_pct) {
@@ -459,13 +464,29 @@ static void c04p_case(uint64_t idx)
 	if (have_g) gstream_free(&g);
 }
 
+// Write generated container files (for builds that must not run encoders).
+static void dump_case(uint64_t idx)
+{
+	vrng r; vrng_init(&r, A.seed, 0xD0C, idx, 0);
+	static const int kinds[] = { SK_XZ, SK_XZ, SK_XZ, SK_ALONE, SK_LZIP, SK_INDEX };
+	static const char *const ext[] = { "xz", "xz", "xz", "lzma", "lz", "idx" };
+	unsigned k = vrng_below(&r, 6);
+	gstream g; gen_stream(&r, &g, kinds[k], vrng_chance(&r, 1, 10) ? 300000 : 20000);
+	char pth[600]; snprintf(pth, sizeof(pth), "%s/gen-%" PRIu64 ".%s", A.outdir ? A.outdir : ".", idx, ext[k]);
+	FILE *f = fopen(pth, "wb"); if (f) { fwrite(g.data.p, 1, g.data.n, f); fclose(f); }
+	hx_eval();
+	gstream_free(&g);
+}
+
 int main(int argc, char **argv)
 {
 	hx_parse(argc, argv, &A);
+	no_encode = strstr(A.extra, "noencode") != NULL;
 	if (A.corpus) ncorpus = list_dir(A.corpus, &corpus);
 	uint64_t idx = UINT64_MAX;
 	while (hx_next_case(&A, &idx)) {
-		if (!strcmp(A.mode, "c06")) c06_case(idx);
+		if (!strcmp(A.mode, "dump")) dump_case(idx);
+		else if (!strcmp(A.mode, "c06")) c06_case(idx);
 		else if (!strcmp(A.mode, "c04p")) c04p_case(idx);
 		else c04_case(idx);
 	}
